@@ -174,7 +174,8 @@ def document(case):
     names = ['V'] + sorted(case['consts']) + sorted(case['inter']) + [e['name'] for e in case['eqs']]
     vs = ['<variable name="t" units="second"/>',
           '<variable name="V" units="dimensionless" initial_value="-80"/>']
-    vs += ['<variable name="%s" units="dimensionless"/>' % n for n in names[1:]]
+    odes = set(e['name'] for e in case['eqs'] if e.get('ode'))
+    vs += ['<variable name="%s" units="dimensionless"%s/>' % (n, ' initial_value="0.5"' if n in odes else '') for n in names[1:]]
     eqs = ['<apply><eq/><apply><diff/><bvar><ci>t</ci></bvar><ci>V</ci></apply>%s</apply>'
            % mathml(['neg', ['+'] + [['v', e['name']] for e in case['eqs']] + [['n', '0']]])]
     defs = []
@@ -182,7 +183,9 @@ def document(case):
         defs.append('<apply><eq/><ci>%s</ci>%s</apply>' % (n, mathml(['n', case['consts'][n]])))
     for n in sorted(case['inter']):
         defs.append('<apply><eq/><ci>%s</ci>%s</apply>' % (n, mathml(case['inter'][n])))
-    uses = ['<apply><eq/><ci>%s</ci>%s</apply>' % (e['name'], mathml(e['ast'])) for e in case['eqs']]
+    # 'ode': the documented form is written directly as the right-hand side of an ODE  d name / dt = ...
+    uses = ['<apply><eq/>%s%s</apply>' % ('<apply><diff/><bvar><ci>t</ci></bvar><ci>%s</ci></apply>' % e['name'] if e.get('ode')
+                                          else '<ci>%s</ci>' % e['name'], mathml(e['ast'])) for e in case['eqs']]
     # 'late_defs': the equations are listed before the definitions of the constants / helper variables they use (legal:
     # the order of equations in a document carries no meaning)
     eqs += (uses + defs[::-1]) if case.get('late_defs') else (defs + uses)
@@ -296,10 +299,14 @@ def run_model_case(case):
         os.unlink(path)
     V = m.get_variable_by_name('c$V')
     byname = {}
+    def eq_name(eq):
+        # the variable an equation defines: x for x = ..., and the state for d state / dt = ... (except the voltage)
+        x = eq.lhs.args[0] if eq.lhs.is_Derivative else eq.lhs
+        nm = x.name.split('$')[1]
+        return None if (eq.lhs.is_Derivative and nm == 'V') else nm
     for eq in m.equations:
-        if eq.lhs.is_Derivative:
-            continue
-        byname[eq.lhs.name.split('$')[1]] = eq
+        if eq_name(eq) is not None:
+            byname[eq_name(eq)] = eq
     before_eq = dict(byname)
     before_def = {eq.lhs: eq.rhs for eq in m.equations}
     defined_before = sorted(str(eq.lhs) for eq in m.equations)
@@ -313,8 +320,8 @@ def run_model_case(case):
     after_def = {eq.lhs: eq.rhs for eq in m.equations}
     after_eq = {}
     for eq in m.equations:
-        if not eq.lhs.is_Derivative:
-            after_eq[eq.lhs.name.split('$')[1]] = eq
+        if eq_name(eq) is not None:
+            after_eq[eq_name(eq)] = eq
     out['defined_same'] = (defined_before == sorted(str(eq.lhs) for eq in m.equations)
                            and nvars_before == sorted(v.name for v in m.variables())
                            and len(after_def) == len(m.equations))
@@ -658,7 +665,7 @@ def gen_equation(r, case, idx):
         kind = 'excluded'
         case['exclude'].append(name)
     return {'name': name, 'ast': ast, 'kind': kind, 'shape': shape, 'terms': terms, 'merge': merge,
-            'points': points_for(terms)}
+            'points': points_for(terms), 'ode': shape != 'excluded' and r.random() < 0.12}
 
 
 def gen_term_with_sp(r, case, t1):
